@@ -166,6 +166,16 @@ def r1(R):
     R.require(total >= 7, 'only %d suffix queries found in fsIndex' % total)
 
 
+def _is_self_data(e):
+    return isinstance(e, ast.Attribute) and e.attr == '_data' and \
+        isinstance(e.value, ast.Name) and e.value.id == 'self'
+
+
+def _dump(e):
+    """Structural identity of an expression, whatever its context."""
+    return ast.unparse(e)
+
+
 @rule('C19.R2', 'deleting the last key of a bucket removes the bucket '
       '(min/max search relies on non-empty buckets)', min_instances=1)
 def r2(R):
@@ -178,26 +188,39 @@ def r2(R):
         pops = [op for op in F.all_ops() if op.kind == 'call' and op.path and
                 op.path[0] == '%local' and op.path[-1] in ('pop', 'popitem')
                 and len(op.path) == 3]
-        if not dels and not pops:
+        # `del self._data[prefix][suffix]`: the bucket has no name; it is
+        # identified by the expression that selects it
+        anon = [op for op in F.all_ops() if op.kind == 'delitem' and
+                op.path is None and isinstance(op.ast.value, ast.Subscript)
+                and _is_self_data(op.ast.value.value)]
+        if not dels and not pops and not anon:
             continue
-        for op in dels + pops:
+        for op in dels + pops + anon:
             n += 1
-            bucket = op.path[1]
-            R.instance('fsIndex.%s deletes from bucket `%s`' % (f.name,
-                                                                bucket))
+            bucket = op.path[1] if op.path else None
+            bexpr = None if op.path else _dump(op.ast.value)
+            if bucket is None:
+                R.instance('fsIndex.%s deletes from the bucket selected by '
+                           '`%s`' % (f.name, ast.unparse(op.ast.value)))
+                bucket = '%anonymous'
+            else:
+                R.instance('fsIndex.%s deletes from bucket `%s`' % (f.name,
+                                                                    bucket))
 
-            def edge(node, st, lab, tgt, op=op, bucket=bucket, F=F):
+            def edge(node, st, lab, tgt, op=op, bucket=bucket, F=F,
+                     bexpr=bexpr):
                 if node is op.node and lab != 'e':
                     return 'deleted'
                 if st == 'deleted' and node.kind == 'test' and \
                         lab in ('T', 'F'):
                     for e, truth in implied_atoms(node.ast, lab):
-                        if isinstance(e, ast.Name) and e.id == bucket:
-                            return 'nonempty' if truth else 'empty'
                         if isinstance(e, ast.Call) and isinstance(
                                 e.func, ast.Name) and e.func.id == 'len' and \
-                                e.args and isinstance(e.args[0], ast.Name) \
-                                and e.args[0].id == bucket:
+                                len(e.args) == 1:
+                            e = e.args[0]
+                        if isinstance(e, ast.Name) and e.id == bucket:
+                            return 'nonempty' if truth else 'empty'
+                        if bexpr is not None and _dump(e) == bexpr:
                             return 'nonempty' if truth else 'empty'
                 if st == 'empty':
                     for o in F.ops(node):
